@@ -233,7 +233,9 @@ WORDS = ["displayName", "guestOS", "memsize", "numvcpus", "scsi0:0.fileName", "s
          "dataFileKey", "uuid.bios", "vmci0.present", "annotation", "tools.syncTime", "nvram", "virtualHW.version",
          "ide1:0.deviceType", "sata0:1.fileName", "config.version", "extendedConfigFile", "floppy0.present"]
 VALS = ["TRUE", "FALSE", "Encrypted VM", "disk 1.vmdk", "564d 3a 11", "ubuntu-64", "4096", "a=b=c", "x # y",
-        "naïve café", "日本語のVM", "tab\there", "", "0", "type=key:cipher=AES-256:key=AAAA", "C:\\vm\\d.vmdk"]
+        "naïve café", "日本語のVM", "tab\there", "", "0", "type=key:cipher=AES-256:key=AAAA", "C:\\vm\\d.vmdk",
+        # characters some line splitters take for line ends; the format's only line end is the newline
+        "line\u2028sep", "para\u2029sep", "next\x85line", "form\x0cfeed", "vert\x0btab", "fs\x1cgs\x1drs\x1e"]
 PASSES = ["password", "correct horse battery staple", "p", "Pässwörd", "пароль", "🔑key", "pass word ", "12345678",
           "a" * 70, "x,y(z)/%41"]
 
@@ -899,6 +901,21 @@ def run_impl(case):
             out["msg"] = str(e)[:160]
         out["after"] = list(v.attr.items())
         out["calls"] = [enc_call(c) for c in calls]
+        if case.get("expect") == "ok" and out["outcome"] == "ok":
+            # the same file on one object: a wrong passphrase first (refused, nothing changes), then the right one
+            v2 = vmx.VMX.parse(case["vmx_text"])
+            try:
+                v2.unlock_with_phrase(case["pw"] + "\u00b7wrong")
+                out["retry_wrong"] = "accepted"
+            except Exception as e:  # noqa: BLE001
+                out["retry_wrong"] = "exc"
+            out["retry_mid"] = list(v2.attr.items())
+            try:
+                v2.unlock_with_phrase(case["pw"])
+                out["retry"] = "ok"
+            except Exception as e:  # noqa: BLE001
+                out["retry"] = f"{type(e).__name__}: {str(e)[:100]}"
+            out["retry_after"] = list(v2.attr.items())
     finally:
         vmx.hashlib, vmx.hmac, vmx.AES, vmx.HAS_PYSTANDALONE = saved
     # the recorded primitive answers of the case must be true
@@ -986,6 +1003,20 @@ class UnlockSuite(Suite):
             elif after != spec_after:
                 fs.append(Finding("impl_vs_spec", f"{label}: unlocked dictionary differs from attr + parse(cfg): "
                                   f"{_dict_diff(after, spec_after)}", "vmx:unlock:roundtrip:dict"))
+            if i_out == "ok" and "retry" in impl_res:
+                if impl_res["retry_wrong"] != "exc":
+                    fs.append(Finding("impl_vs_spec", f"{label}: a wrong passphrase was accepted on a fresh object",
+                                      "vmx:unlock:retry:wrong-accepted"))
+                elif compact_py(impl_res["retry_mid"]) != before:
+                    fs.append(Finding("impl_vs_spec", f"{label}: a refused passphrase changed the dictionary",
+                                      "vmx:unlock:retry:mid"))
+                elif impl_res["retry"] != "ok":
+                    fs.append(Finding("impl_vs_spec", f"{label}: the correct passphrase after a refused one on the same object "
+                                      f"raised {impl_res['retry']}; the property requires the original entries",
+                                      "vmx:unlock:retry:exc"))
+                elif compact_py(impl_res["retry_after"]) != after:
+                    fs.append(Finding("impl_vs_spec", f"{label}: unlocking after a refused passphrase gives a different dictionary: "
+                                      f"{_dict_diff(compact_py(impl_res['retry_after']), after)}", "vmx:unlock:retry:dict"))
             if "entries" in case and i_out == "ok":
                 want = dict(before)
                 for k, v in compact_py(case["entries"]):
